@@ -46,7 +46,16 @@ RULE_STEP = ('one Kani/CBMC harness instance per concrete pre-state shape x barr
              '(resource ids, running times, dependency ids, new system) are solver variables; an instance is non-trivial '
              'when it is decided and at least one reachability witness (kani::cover) is satisfied')
 
+def step_prop(funcs_extra=(), owner=None):
+    return {'level': 'model_checking', 'rule': RULE_STEP, 'functions': STEP_FUNCS + list(funcs_extra), 'bounds': STEP_BOUNDS,
+            'assumptions': STEP_ASSUME, 'outside': STEP_OUT, 'parts': [step_part(owner)]}
+
+
 PROPS = {
+    'C01': step_prop(),
+    'C02': step_prop(),
+    'C10': step_prop(),
+    'C18': step_prop(owner='C18'),
     'C03': {'level': 'model_checking', 'rule': RULE_STEP, 'functions': STEP_FUNCS + ['StagesBuilder::add_barrier'], 'bounds': STEP_BOUNDS,
             'assumptions': STEP_ASSUME, 'outside': STEP_OUT,
             'parts': [step_part()]},
